@@ -25,7 +25,7 @@ def run(res):
     lib.proof_stage(res, "C06.v", "Props.C06",
                     ["C06_no_overpay", "C06_ledger_is_in_flight_value", "C06_unbacked_refused", "C06_nonvacuous"])
     cov = res.coverage
-    n = 70 if quick else 900
+    n = 150 if quick else 1500
     r = lib.run_harness("pay", "run", res.seed, n, res.tier, timeout=3000)
     cases = r["CASE"]
     fails = lib.coq_failures(IMPORTS, "pay_case", "check_pay", [c["coq"] for c in cases], "pay_c06")
